@@ -239,6 +239,23 @@ def accessor(ctx, letters):
     ctx.sample(sub, {"cube": "all 4096 words of length 6", "calls": ["default", "robust=False", "p=0.9", "p=0.9,robust=False,srange"]})
 
 
+def long_optimality(ctx):
+    """GCV optimality / robust sanity on longer series (n = 50..200) with gap layouts, default and custom grids."""
+    from . import c04
+    nd = -3000.0
+    fam = c04.long_series_family()
+    names = list(fam)
+    for n in (50, 120, 200):
+        sel = [k for k in names if f"_{n}_" in k]
+        Y = np.array([fam[k][0] for k in sel])
+        V = np.array([fam[k][1] for k in sel])
+        for srange in (DEFAULT, np.arange(-2.0, 2.0), np.arange(-1.0, 4.5, 0.5)):
+            for robust in (False, True):
+                for p_env in (None, 0.8):
+                    check_batch(Y, V, nd, srange, robust, p_env, ctx, "long")
+    ctx.sample("gcv", {"long_family": names[:6], "lengths": [50, 120, 200]})
+
+
 def run(ctx):
     wc.compile_all()
     letters = wc.letters_for(ctx.seed)
@@ -260,6 +277,7 @@ def run(ctx):
     ctx.note("letters", letters)
     ctx.note("sranges", [[float(s[0]), float(s[-1]), len(s)] for s in sranges(thorough)])
     accessor(ctx, letters)
+    long_optimality(ctx)
 
 
 def replay(sub, case, p):
